@@ -135,17 +135,25 @@ fn main() {
     sum.rule = "case = (source items with at most one injected Err, adapter chain of depth 0..3 over {filter,map,filter_map}, consumer {try_for_each, step-wise try_for_some, for_each}, optional sink fault position); \
 plus triple-level cases: sources {iterator, N-Triples parser with a syntax error at statement k, store}, sinks {insert_all into a capacity-limited store, remove_all, collect, N-Triples serializer on a failing writer}; \
 plus concrete-end cases: generated N-Triples / N-Quads documents (valid statements with varied spacing and escapes, blank / comment / CR lines, malformed lines at generated positions, last line with or without LF) read by sophia_turtle::parser::{nt,nq} through a chunked Read probe, adapter chains of depth 0..3 over statements, consumers {recording closure failing at item j, insert_all into set datasets, Nt/Nq serializer over a byte-budget / all-or-nothing / Ok(0) io::Write probe}, and the parser pulled on after the failure to observe where it stopped; \
-plus (ids from 1000000) bulk cases: the provided methods insert_all / remove_all / remove_matching / retain_matching / add_to_graph / add_to_dataset on user-defined stores that journal every insert / remove call (set or multiset, remove one or all occurrences, failing on the k-th call, failing while listed), directly, through &mut, GraphAsDataset (as_dataset_mut / into_dataset / new), DatasetGraph (graph_mut / new) and nestings of them, with named quads offered to default-graph-only consumers; and flush cases: {Nt, Nq, Turtle, TriG (plain and pretty), RDF/XML, JSON-LD} serializers over writers failing in write and/or flush (bare, &mut, BufWriter, LineWriter) with a source failing at item k, judged by the order of events in a log shared by source and writer; non-trivial = a fault is actually hit after at least one item was consumed, or a filter dropped something; distinct = distinct printed case".into();
+plus (ids from 1000000) bulk cases: the provided methods insert_all / remove_all / remove_matching / retain_matching / add_to_graph / add_to_dataset on user-defined stores that journal every insert / remove call (set or multiset, remove one or all occurrences, failing on the k-th call, failing while listed), directly, through &mut, GraphAsDataset (as_dataset_mut / into_dataset / new), DatasetGraph (graph_mut / new) and nestings of them, with named quads offered to default-graph-only consumers; and flush cases: {Nt, Nq, Turtle, TriG (plain and pretty), RDF/XML, JSON-LD} serializers over writers failing in write and/or flush (bare, &mut, BufWriter, LineWriter) with a source failing at item k, judged by the order of events in a log shared by source and writer; plus (ids from 2000000) iterator cases: sources that are iterators or multi-item-per-step sources with every kind of size hint (exact, unknown, (0, Some(0)), too small, too large, one-sided) and the Turtle parser (object / predicate lists), under 0..4 layers of adapters and of map_* / filter_map_*(..).into_iter() fed back into the Source API, consumed by try_for_each / step-wise / for_each / for_some closures, add_to_graph / add_to_dataset / insert_all on journaling stores, collect_triples and the Nt / Nq serializers; the methods of the Iterator trait (fold, try_fold, for_each, count, last, nth, sum, max/min, reduce, collect, extend, partition, unzip, find, any, all, position, by_ref, size_hint, skip, step_by, chain, peekable, fuse, enumerate, take, take_while, filter, inspect, zip, flat_map, eq) called on those iterators after k manual next() calls and compared with the same calls on a Vec iterator over the expected sequence; and reuse cases: 2..3 serialize_* calls on ONE serializer {Nt, Nq, Turtle, TriG, RDF/XML, JSON-LD} over a writer that fails in some rounds and recovers, every round judged against a fresh serializer; non-trivial = a fault is actually hit after at least one item was consumed, or a filter dropped something; distinct = distinct printed case".into();
     let base = Rng::new(a.seed);
     let mut cases: Vec<(usize, String)> = vec![];
     let mut seen = std::collections::HashSet::new();
     let all_ads = [AD::FilterEven, AD::FilterLt(5), AD::FilterNone, AD::FilterAll, AD::MapSucc, AD::MapDouble, AD::MapConst(4), AD::FilterMapHalf, AD::FilterMapLtSucc(6)];
     let range: Vec<usize> = match a.only { Some(i) if i < 1_000_000 => vec![i], Some(_) => vec![], None => (0..a.n).collect() };
     // the second family of cases (ids from 1_000_000 on): bulk methods call by call / consumers behind adapters / serializers and flush
-    let extra: Vec<usize> = match a.only { Some(i) if i >= 1_000_000 => vec![i], Some(_) => vec![], None => (0..a.n / 3).map(|j| 1_000_000 + j).collect() };
+    let extra: Vec<usize> = match a.only { Some(i) if (1_000_000..2_000_000).contains(&i) => vec![i], Some(_) => vec![], None => (0..a.n / 3).map(|j| 1_000_000 + j).collect() };
     for idx in extra {
         let mut r = base.fork(idx as u64);
         if (idx - 1_000_000) % 5 < 3 { bulk::case(idx, &mut r, a.only.is_some(), &mut sum, &mut cases, &mut seen); } else { flushy::case(idx, &mut r, a.only.is_some(), &mut sum, &mut cases, &mut seen); }
+    }
+    // the third family of cases (ids from 2_000_000 on): iterators used as sources (every kind of size_hint, the iterators of
+    // map_* / filter_map_*(..).into_iter() nested and fed back into the Source API), every method of the Iterator trait on those
+    // iterators after manual next() calls, and serializers reused after a failed call
+    let third: Vec<usize> = match a.only { Some(i) if i >= 2_000_000 => vec![i], Some(_) => vec![], None => (0..a.n / 3).map(|j| 2_000_000 + j).collect() };
+    for idx in third {
+        let mut r = base.fork(idx as u64);
+        match (idx - 2_000_000) % 5 { 0 | 1 => iters::case_a(idx, &mut r, a.only.is_some(), &mut sum, &mut cases, &mut seen), 2 | 3 => iters::case_b(idx, &mut r, a.only.is_some(), &mut sum, &mut cases, &mut seen), _ => flushy::reuse_case(idx, &mut r, a.only.is_some(), &mut sum, &mut cases, &mut seen) }
     }
     for idx in range {
         let mut r = base.fork(idx as u64);
@@ -372,7 +380,7 @@ plus (ids from 1000000) bulk cases: the provided methods insert_all / remove_all
         sum.evaluations += 1;
     }
     if a.only.is_none() {
-        sum.shards = write_shards(&a.out, "From Sophia.Common Require Import Prelude Term.\nFrom Sophia.C03 Require Import Model.\nFrom Sophia.C15 Require Import Model Generic ParserSource SerializerSink EndToEnd Bulk.", &cases, a.shards);
+        sum.shards = write_shards(&a.out, "From Sophia.Common Require Import Prelude Term.\nFrom Sophia.C03 Require Import Model.\nFrom Sophia.C15 Require Import Model Generic ParserSource SerializerSink EndToEnd Bulk IterSource Reuse.", &cases, a.shards);
         sum.extra.push(("coq_cases".into(), cases.len().to_string()));
         std::fs::write(format!("{}/summary.json", a.out), sum.to_json()).unwrap();
     }
@@ -419,7 +427,7 @@ mod concrete {
         QA::FilterPred(i) => format!("(QFilterPred {})", coq_str(i)), QA::FilterNone => "QFilterNone".into(), QA::FilterAll => "QFilterAll".into(),
         QA::MapDropGraph => "QMapDropGraph".into(), QA::MapSetGraph(i) => format!("(QMapSetGraph {})", coq_str(i)), QA::MapSetObj(l) => format!("(QMapSetObj {})", coq_str(l)),
         QA::FmGraphFromObj => "QFilterMapGraphFromObj".into(), QA::FmUnquote => "QFilterMapUnquote".into() } }
-    fn c_quad(q: &Q) -> String { format!("({}, {}, {}, {})", coq_term(&q.0[0]), coq_term(&q.0[1]), coq_term(&q.0[2]), coq_opt(q.1.as_ref().map(|g| coq_term(g)))) }
+    pub fn c_quad(q: &Q) -> String { format!("({}, {}, {}, {})", coq_term(&q.0[0]), coq_term(&q.0[1]), coq_term(&q.0[2]), coq_opt(q.1.as_ref().map(|g| coq_term(g)))) }
 
     // ---------- probes ----------
     /// hands the document over in pieces of at most `chunk` bytes and counts the calls
@@ -796,7 +804,7 @@ mod bulk {
     fn g_term(g: u64) -> Option<ST> { if g == 0 { None } else { Some(iri(&format!("http://e/g{g}"))) } }
     fn s_term(k: u64) -> ST { iri(&format!("http://e/s{k}")) }
     fn o_term(n: u64) -> ST { lit_dt(&n.to_string(), &format!("{XSD}integer")) }
-    fn spo_of(n: u64) -> [ST; 3] { [s_term(n % 3), iri("http://e/p"), o_term(n)] }
+    pub fn spo_of(n: u64) -> [ST; 3] { [s_term(n % 3), iri("http://e/p"), o_term(n)] }
     pub fn quad_of(x: u64) -> Spog<ST> { (spo_of(tpart(x)), g_term(gname(x))) }
     /// a user-defined Copy term: the stores below yield these (DatasetGraph / graph_mut need a graph name whose
     /// borrowed form is the term type of the dataset)
@@ -1373,5 +1381,528 @@ mod flushy {
             let c_src_err = match src_err { Some((_, e)) => format!("(Some {e})"), None => "None".into() };
             cases.push((idx, format!("run_flush_ok {c_mode} {c_src_err} {c_wfail} {c_ffail} {c_out} {flushes}%nat")));
         }
+    }
+
+    // ---------- one serializer, several calls ----------
+    /// the writer of the reuse cases: the serializer owns one handle, the harness keeps another one to open a new round
+    /// (new policy, counters reset; what was accepted in the round is taken out)
+    #[derive(Clone, Copy, Debug, PartialEq)] pub enum RK { Budget, Atomic }
+    #[derive(Clone, Copy, Debug, PartialEq)] pub struct RW { kind: RK, budget: Option<usize>, cap: usize, code: u64 }
+    struct RState { rw: RW, acc: Vec<u8>, calls: usize, failed: bool, after: usize, log: Log }
+    #[derive(Clone)] struct SharedW(Rc<RefCell<RState>>);
+    impl Write for SharedW {
+        fn write(&mut self, buf: &[u8]) -> io::Result<usize> {
+            let mut s = self.0.borrow_mut();
+            if buf.is_empty() { s.log.borrow_mut().push(Ev::Write { asked: 0, res: Ok(0) }); return Ok(0); }
+            s.calls += 1; if s.failed { s.after += 1; }
+            let refuse = match (s.rw.kind, s.rw.budget) { (_, None) => false, (RK::Budget, Some(b)) => s.acc.len() >= b, (RK::Atomic, Some(b)) => s.acc.len() + buf.len() > b };
+            if refuse { s.failed = true; let c = s.rw.code; s.log.borrow_mut().push(Ev::Write { asked: buf.len(), res: Err(c) }); return Err(io::Error::new(io::ErrorKind::Other, MyErr(c))); }
+            let n = match s.rw.kind { RK::Atomic => buf.len(), RK::Budget => buf.len().min(s.rw.cap).min(s.rw.budget.map_or(usize::MAX, |b| b - s.acc.len())) };
+            s.acc.extend_from_slice(&buf[..n]); s.log.borrow_mut().push(Ev::Write { asked: buf.len(), res: Ok(n) }); Ok(n)
+        }
+        fn flush(&mut self) -> io::Result<()> { let mut s = self.0.borrow_mut(); if s.failed { s.after += 1; } s.log.borrow_mut().push(Ev::Flush(Ok(()))); Ok(()) }
+    }
+    #[derive(Clone, Debug)]
+    struct Round { items: Vec<Q>, src_err: Option<(usize, u64)>, filter: bool, rw: RW }
+    #[derive(Clone, Debug)]
+    struct RoundObs { out: Out, acc: Vec<u8>, calls: usize, after: usize, events: Vec<Ev> }
+
+    /// 2..3 `serialize_*` calls on ONE serializer; between two calls the writer recovers.  Every round on its own must
+    /// look like the work of a fresh serializer: the writer receives a prefix of the serialization of the items of THAT
+    /// round's source before its failure (all of it when nothing fails), nothing left over from an earlier round.
+    pub fn reuse_case(idx: usize, r: &mut Rng, verbose: bool, sum: &mut Summary, cases: &mut Vec<(usize, String)>, seen: &mut std::collections::HashSet<String>) {
+        sum.evaluations += 1;
+        let xs = format!("{XSD}string");
+        let subj = [iri("http://e/a"), iri("http://e/b"), bnode("x"), iri("tag:s")];
+        let pred = [iri("http://e/p1"), iri("http://e/p2"), iri(&format!("{RDF}type"))];
+        let obj = [iri("http://e/o"), bnode("y"), lit_dt("plain", &xs), lit_dt("7", &format!("{XSD}integer")), lit_lang("x", "en"), lit_dt("line\nbreak \"q\"", &xs)];
+        let gn = [None, None, Some(iri("http://e/g1")), Some(bnode("gb"))];
+        let ser = *r.pick(&[Ser::Nt, Ser::Nt, Ser::Nt, Ser::Nq, Ser::Nq, Ser::Turtle(false), Ser::Turtle(true), Ser::Trig(false), Ser::Trig(true), Ser::Xml(0), Ser::Xml(2), Ser::JsonLd(0), Ser::JsonLd(2)]);
+        let by_ref = r.chance(1, 4);
+        let n_rounds = 2 + r.below(2);
+        let passes = |filter: bool, q: &Q| !filter || !Term::eq(&q.0[1], iri("http://e/p2"));
+        let mut rounds: Vec<Round> = vec![];
+        for i in 0..n_rounds {
+            let len = if i + 1 < n_rounds { 1 + r.below(4) } else { r.below(4) };
+            let items: Vec<Q> = (0..len).map(|_| ([r.pick(&subj).clone(), r.pick(&pred).clone(), r.pick(&obj).clone()], if ser.quads() { r.pick(&gn).clone() } else { None })).collect();
+            let src_err = if r.chance(1, 5) { Some((r.below(len + 1), 100 + r.below(50) as u64)) } else { None };
+            let filter = r.chance(1, 4);
+            let before: Vec<Q> = items.iter().take(src_err.map_or(len, |x| x.0)).filter(|q| passes(filter, q)).cloned().collect();
+            let ref_len = reference(ser, &before).len();
+            // all rounds but the last fail in the writer most of the time; the last one mostly succeeds
+            let fail_here = if i + 1 < n_rounds { r.chance(3, 4) } else { r.chance(1, 4) };
+            let budget = if fail_here { Some(r.below(ref_len.max(1))) } else { match r.below(3) { 0 => None, 1 => Some(ref_len), _ => Some(ref_len + r.below(10)) } };
+            rounds.push(Round { items, src_err, filter, rw: RW { kind: if r.chance(1, 2) { RK::Budget } else { RK::Atomic }, budget, cap: *r.pick(&[1usize, 3, 1000, 1000]), code: 300 + 10 * i as u64 + r.below(10) as u64 } });
+        }
+        // ----- the real run -----
+        let log: Log = Rc::new(RefCell::new(vec![]));
+        let state = Rc::new(RefCell::new(RState { rw: rounds[0].rw, acc: vec![], calls: 0, failed: false, after: 0, log: log.clone() }));
+        let mk = |rd: &Round| { let mut v: VecDeque<Result<Q, u64>> = rd.items.iter().cloned().map(Ok).collect(); if let Some((k, e)) = rd.src_err { v.insert(k, Err(e)); } LoggedIter { items: v, i: 0, log: log.clone() } };
+        let mut obs: Vec<RoundObs> = vec![];
+        macro_rules! session { ($s:expr, $call:ident, $tr:ident) => {{
+            let mut s = $s;
+            for rd in &rounds {
+                { let mut st = state.borrow_mut(); st.rw = rd.rw; st.acc.clear(); st.calls = 0; st.failed = false; st.after = 0; }
+                let start = log.borrow().len();
+                let out = if rd.filter { conv(s.$call(mk(rd).filter_quads(|q: &Q| !Term::eq(&q.0[1], iri("http://e/p2"))).$tr()).map(|_| ())) } else { conv(s.$call(mk(rd).$tr()).map(|_| ())) };
+                let st = state.borrow();
+                obs.push(RoundObs { out, acc: st.acc.clone(), calls: st.calls, after: st.after, events: log.borrow()[start..].to_vec() });
+            }
+        }}; }
+        trait Same: Sized { fn same(self) -> Self { self } }
+        impl<T> Same for T {}
+        let w = SharedW(state.clone());
+        let mut w2 = SharedW(state.clone());
+        macro_rules! on_writer { ($mk:expr, $call:ident, $tr:ident) => { if by_ref { let wr = &mut w2; session!($mk(wr), $call, $tr) } else { session!($mk(w), $call, $tr) } }; }
+        match ser {
+            Ser::Nt => on_writer!(|w| NtSerializer::new(w), serialize_triples, to_triples),
+            Ser::Nq => on_writer!(|w| NqSerializer::new(w), serialize_quads, same),
+            Ser::Turtle(pretty) => on_writer!(|w| TurtleSerializer::new_with_config(w, TurtleConfig::new().with_pretty(pretty)), serialize_triples, to_triples),
+            Ser::Trig(pretty) => on_writer!(|w| TrigSerializer::new_with_config(w, TrigConfig::new().with_pretty(pretty)), serialize_quads, same),
+            Ser::Xml(ind) => on_writer!(|w| RdfXmlSerializer::new_with_config(w, RdfXmlConfig::new().with_indentation(ind)), serialize_triples, to_triples),
+            Ser::JsonLd(sp) => on_writer!(|w| JsonLdSerializer::new_with_options(w, JsonLdOptions::new().with_spaces(sp)), serialize_quads, same),
+        }
+        // ----- the oracle, round by round -----
+        let text = format!("ONE serializer={ser:?}{} used for {n_rounds} calls; {}", if by_ref { " (on &mut writer)" } else { "" },
+            rounds.iter().enumerate().map(|(i, rd)| format!("call #{}: items={} source_fails_at={:?} adapter={} writer={:?}", i + 1, rd.items.iter().map(|q| String::from_utf8_lossy(&super::concrete::canon_quad(q)).trim_end().to_string()).collect::<Vec<_>>().join(" | "), rd.src_err, if rd.filter { "filter(p != p2)" } else { "none" }, rd.rw)).collect::<Vec<_>>().join("; "));
+        let mut problems: Vec<String> = vec![];
+        let is_fail = |e: &Ev| matches!(e, Ev::PullErr(_) | Ev::Write { res: Err(_), .. } | Ev::Flush(Err(_)));
+        let unordered = matches!(ser, Ser::JsonLd(_));
+        let mut any_failed_before = false; let mut nontrivial = false;
+        for (i, (rd, ob)) in rounds.iter().zip(&obs).enumerate() {
+            let before: Vec<Q> = rd.items.iter().take(rd.src_err.map_or(rd.items.len(), |x| x.0)).filter(|q| passes(rd.filter, q)).cloned().collect();
+            let fresh = reference(ser, &before);
+            let first = ob.events.iter().position(is_fail);
+            let exp: Out = match first.map(|j| &ob.events[j]) { None => Out::Done, Some(Ev::PullErr(e)) => Out::Source(*e), Some(Ev::Write { res: Err(c), .. }) | Some(Ev::Flush(Err(c))) => Out::Sink(Some(*c), String::new()), _ => unreachable!() };
+            let n = i + 1;
+            match (&ob.out, &exp) {
+                (Out::Done, Out::Done) => {}
+                (Out::Source(a), Out::Source(b)) if a == b => {}
+                (Out::Sink(Some(a), _), Out::Sink(Some(b), _)) if a == b => {}
+                (Out::Sink(None, s), Out::Sink(_, _)) => problems.push(format!("call #{n}: the sink error does not carry the writer's error value: {s}")),
+                _ => problems.push(format!("call #{n}: outcome {:?}, but the first failure in the order of events of this call is {:?} (events: {:?})", ob.out, first.map(|j| &ob.events[j]), ob.events)),
+            }
+            if let Some(j) = first {
+                if ob.events[j + 1..].iter().any(|e| matches!(e, Ev::Pull(_) | Ev::PullErr(_) | Ev::PullEnd)) { problems.push(format!("call #{n}: the source was pulled again after the first failure (events: {:?})", ob.events)); }
+                if !matches!(ob.events[j], Ev::PullErr(_)) && ob.after > 0 { problems.push(format!("call #{n}: the writer was called again after it had reported an error (events: {:?})", ob.events)); }
+            }
+            if rd.src_err.is_none() && ob.out == Out::Done && !ob.events.contains(&Ev::PullEnd) { problems.push(format!("call #{n}: success reported although the source was not exhausted")); }
+            let stale = if any_failed_before { " -- bytes left over from an earlier, failed call?" } else { "" };
+            if unordered { if ob.acc.len() > fresh.len() { problems.push(format!("call #{n}: the writer accepted {} bytes, more than a fresh serializer writes for the items of this call before the failure ({}){stale}", ob.acc.len(), fresh.len())); } }
+            else if !fresh.starts_with(&ob.acc) { problems.push(format!("call #{n}: the writer accepted {:?}, which is not a prefix of what a fresh serializer writes for the items of this call before the failure, {:?}{stale}", String::from_utf8_lossy(&ob.acc), String::from_utf8_lossy(&fresh))); }
+            let silent = rd.rw.budget.map_or(true, |b| b >= fresh.len()) && !ob.events.iter().any(|e| matches!(e, Ev::Write { res: Err(_), .. }));
+            if silent {
+                if ob.out == Out::Done && (if unordered { ob.acc.len() != fresh.len() } else { ob.acc != fresh }) { problems.push(format!("call #{n}: success, but the writer received {:?} instead of {:?}{stale}", String::from_utf8_lossy(&ob.acc), String::from_utf8_lossy(&fresh))); }
+                if matches!(ser, Ser::Nt | Ser::Nq) && ob.acc != fresh { problems.push(format!("call #{n}: the writer accepts everything, but it received {:?} instead of the statements of this call before the failure {:?}{stale}", String::from_utf8_lossy(&ob.acc), String::from_utf8_lossy(&fresh))); }
+            }
+            if any_failed_before && !fresh.is_empty() { nontrivial = true; }
+            if matches!(ob.out, Out::Sink(..)) && !ob.acc.is_empty() { any_failed_before = true; }
+        }
+        for p in &problems { sum.oracle_failures.push((idx.to_string(), format!("reuse: {p} -- in the session: {text}"))); }
+        if verbose { println!("CASE {idx}: reuse: {text}"); for (i, ob) in obs.iter().enumerate() { println!("IMPL call #{}: out={:?} accepted={:?} calls={} after={}\n  EVENTS {:?}", i + 1, ob.out, String::from_utf8_lossy(&ob.acc), ob.calls, ob.after, ob.events); } }
+        sum.bump(&format!("reuse:ser:{}", format!("{ser:?}").split('(').next().unwrap()));
+        sum.bump(&format!("reuse:history:{}", obs.iter().map(|o| match o.out { Out::Done => "ok", Out::Source(_) => "source-error", Out::Sink(..) => "sink-error" }).collect::<Vec<_>>().join(",")));
+        if nontrivial { sum.bump("reuse:call-after-a-call-that-failed-mid-stream"); }
+        if seen.insert(text.clone()) && nontrivial { sum.distinct_nontrivial += 1; }
+        if nontrivial && sum.samples.iter().filter(|s| s.contains("reuse:")).count() < 2 { sum.samples.push(format!("case {idx}: reuse: {text} => {:?}", obs.iter().map(|o| (format!("{:?}", o.out), String::from_utf8_lossy(&o.acc).to_string())).collect::<Vec<_>>())); }
+        // ----- the Coq case: the statement-by-statement serializers on one writer that recovers between the calls -----
+        if !matches!(ser, Ser::Nt | Ser::Nq) || rounds.iter().any(|rd| rd.src_err.is_some()) { return; }
+        let c_rounds = coq_list(rounds.iter().map(|rd| { let qs: Vec<&Q> = rd.items.iter().filter(|q| passes(rd.filter, q)).collect();
+            let wd = match rd.rw.kind { RK::Budget => format!("(WBudget {}%nat {}%nat {})", rd.rw.budget.unwrap_or(1_000_000), rd.rw.cap, rd.rw.code), RK::Atomic => format!("(WAtomic {}%nat {})", rd.rw.budget.unwrap_or(1_000_000), rd.rw.code) };
+            format!("({}, {wd})", coq_list(qs.iter().map(|q| super::concrete::c_quad(q)))) }));
+        let c_obs = coq_list(obs.iter().map(|ob| format!("({}, {}%nat, {}%nat, {})", coq_bytes(&ob.acc), ob.calls, ob.after, match &ob.out { Out::Done => "None".to_string(), Out::Sink(Some(c), _) => format!("(Some (EDev {c}))"), _ => "(Some EWriteZero)".into() })));
+        cases.push((idx, format!("ser_rounds_ok {c_rounds} {c_obs}")));
+    }
+}
+
+
+// =====================================================================================================================
+/// Case ids from 2_000_000 on (`case_a`, `case_b`; the reuse cases are in `flushy`).
+///  * `case_a`: ITERATORS as sources.  A base source (an iterator of results, a user-defined source handing over several
+///    items per step, or the Turtle parser over object / predicate lists) announces its length with every kind of size
+///    hint: exact, unknown, (0, Some(0)) although items remain, too small, too large, one-sided.  Over it 0..4 layers, each
+///    either a Source adapter (filter / map / filter_map) or `map_*(..).into_iter()` / `filter_map_*(..).into_iter()`, whose
+///    iterator is a Source again through the blanket impl; then a consumer of the Source API.  Whatever the hints say and
+///    however often the stream goes from Source to Iterator and back, the consumer must see the filter_map image of the
+///    items before the first fault, once, in order.
+///  * `case_b`: the methods of the Iterator trait on the iterators of `map_*(..).into_iter()` / `filter_map_*(..).into_iter()`
+///    after k manual `next()` calls (which may stop in the middle of a multi-item step), against the same calls on a Vec
+///    iterator over the expected remaining sequence.
+mod iters {
+    use super::bulk::{spo_of, Call, Core, Pol, JD, JG};
+    use super::{c_ad, c_outc, c_steps, filt, fmf, kind, mapf, of_results, oracle, oracle_drain, through, Outc, Steps, AD, K};
+    use sophia_api::prelude::*;
+    use sophia_api::source::{QuadSource, Source, StreamError, StreamResult, TripleSource};
+    use sophia_turtle::serializer::nq::NqSerializer;
+    use sophia_turtle::serializer::nt::NtSerializer;
+    use std::cell::{Cell, RefCell};
+    use std::collections::{BTreeSet, VecDeque};
+    use std::rc::Rc;
+    use verif_harness::*;
+
+    // ---------- size hints ----------
+    #[derive(Clone, Copy, Debug, PartialEq)]
+    pub enum Hint { Exact, Unknown, Zero, TooSmall, TooLarge, LowerOnly, UpperOnly }
+    fn hint_of(h: Hint, rem: usize) -> (usize, Option<usize>) {
+        match h { Hint::Exact => (rem, Some(rem)), Hint::Unknown => (0, None), Hint::Zero => (0, Some(0)), Hint::TooSmall => (rem / 2, Some(rem / 2)), Hint::TooLarge => (rem + 1, Some(rem + 3)), Hint::LowerOnly => (rem, None), Hint::UpperOnly => (0, Some(rem)) }
+    }
+    /// a user-level Source: several items per step, an error at the end of a step, and a size hint
+    struct HintedBatch { steps: VecDeque<(Vec<u64>, Option<u64>)>, hint: Hint, pulls: Rc<Cell<usize>> }
+    impl Source for HintedBatch {
+        type Item<'x> = u64;
+        type Error = MyErr;
+        fn try_for_some_item<E, F>(&mut self, mut f: F) -> StreamResult<bool, MyErr, E> where E: std::error::Error + Send + Sync + 'static, F: FnMut(u64) -> Result<(), E> {
+            let Some((items, oe)) = self.steps.pop_front() else { return Ok(false) };
+            self.pulls.set(self.pulls.get() + 1);
+            for x in items { f(x).map_err(StreamError::SinkError)?; }
+            match oe { Some(e) => Err(StreamError::SourceError(MyErr(e))), None => Ok(true) }
+        }
+        fn size_hint_items(&self) -> (usize, Option<usize>) { hint_of(self.hint, self.steps.iter().map(|s| s.0.len()).sum()) }
+    }
+    /// an iterator of results with a size hint (a Source through the blanket impl)
+    struct HintedIter { items: VecDeque<Result<u64, MyErr>>, hint: Hint, pulls: Rc<Cell<usize>> }
+    impl Iterator for HintedIter {
+        type Item = Result<u64, MyErr>;
+        fn next(&mut self) -> Option<Self::Item> { let x = self.items.pop_front(); if x.is_some() { self.pulls.set(self.pulls.get() + 1); } x }
+        fn size_hint(&self) -> (usize, Option<usize>) { hint_of(self.hint, self.items.len()) }
+    }
+    /// the numbers of the triples a parser delivers (the parser's own error becomes MyErr(7))
+    struct ParserNums<S>(S);
+    impl<S: TripleSource> Source for ParserNums<S> {
+        type Item<'x> = u64;
+        type Error = MyErr;
+        fn try_for_some_item<E, F>(&mut self, mut f: F) -> StreamResult<bool, MyErr, E> where E: std::error::Error + Send + Sync + 'static, F: FnMut(u64) -> Result<(), E> {
+            self.0.try_for_some_triple(|t| f(super::tr_through(t))).map_err(|e| match e { StreamError::SourceError(_) => StreamError::SourceError(MyErr(7)), StreamError::SinkError(e) => StreamError::SinkError(e) })
+        }
+    }
+
+    // ---------- a type-erased source that passes the size hint on ----------
+    #[derive(Debug)]
+    struct Carrier(Box<dyn std::any::Any + Send + Sync>);
+    impl std::fmt::Display for Carrier { fn fmt(&self, f: &mut std::fmt::Formatter<'_>) -> std::fmt::Result { write!(f, "carried sink error") } }
+    impl std::error::Error for Carrier {}
+    trait DynSrc { fn step(&mut self, f: &mut dyn FnMut(u64) -> Result<(), Carrier>) -> Result<bool, StreamError<MyErr, Carrier>>; fn hint(&self) -> (usize, Option<usize>); }
+    impl<S> DynSrc for S where S: Source<Error = MyErr>, for<'x> S: Source<Item<'x> = u64> {
+        fn step(&mut self, f: &mut dyn FnMut(u64) -> Result<(), Carrier>) -> Result<bool, StreamError<MyErr, Carrier>> { self.try_for_some_item(|x| f(x)) }
+        fn hint(&self) -> (usize, Option<usize>) { self.size_hint_items() }
+    }
+    pub struct Bx(Box<dyn DynSrc>);
+    impl Source for Bx {
+        type Item<'x> = u64;
+        type Error = MyErr;
+        fn try_for_some_item<E, F>(&mut self, mut f: F) -> StreamResult<bool, MyErr, E> where E: std::error::Error + Send + Sync + 'static, F: FnMut(u64) -> Result<(), E> {
+            let mut g = |x: u64| f(x).map_err(|e| Carrier(Box::new(e)));
+            match self.0.step(&mut g) { Ok(b) => Ok(b), Err(StreamError::SourceError(e)) => Err(StreamError::SourceError(e)), Err(StreamError::SinkError(c)) => Err(StreamError::SinkError(*c.0.downcast::<E>().unwrap())) }
+        }
+        fn size_hint_items(&self) -> (usize, Option<usize>) { self.0.hint() }
+    }
+
+    // ---------- layers ----------
+    #[derive(Clone, Copy, Debug, PartialEq)]
+    pub enum Layer { Ad(AD), IntoIterMap(AD), IntoIterFm(AD) }
+    impl Layer { fn ad(self) -> AD { match self { Layer::Ad(a) | Layer::IntoIterMap(a) | Layer::IntoIterFm(a) => a } } fn is_iter(self) -> bool { !matches!(self, Layer::Ad(_)) } }
+    fn apply(s: Bx, l: Layer) -> Bx {
+        match l {
+            Layer::Ad(a) => match kind(a) {
+                K::F => Bx(Box::new(s.filter_items(move |x: &u64| filt(a, *x)))),
+                K::M => Bx(Box::new(s.map_items(move |x: u64| mapf(a, x)))),
+                K::FM => Bx(Box::new(s.filter_map_items(move |x: u64| fmf(a, x)))),
+            },
+            // the iterator of the adapter, used as a source again (blanket impl of Source for iterators of results)
+            Layer::IntoIterMap(a) => Bx(Box::new(s.map_items(move |x: u64| mapf(a, x)).into_iter())),
+            Layer::IntoIterFm(a) => Bx(Box::new(s.filter_map_items(move |x: u64| fmf(a, x)).into_iter())),
+        }
+    }
+    #[derive(Clone, Copy, Debug, PartialEq)]
+    pub enum Base { Iter, Batch, Turtle }
+    fn turtle_doc(steps: &Steps) -> String {
+        let lit = |n: &u64| format!("\"{n}\"^^<{XSD}integer>");
+        let mut text = String::new();
+        for (i, (items, oe)) in steps.iter().enumerate() {
+            if i == 0 { text.push_str("@prefix e: <http://e/> .\n"); continue; }
+            if !items.is_empty() { if i % 2 == 0 { text.push_str(&format!("e:s e:p {} .\n", items.iter().map(lit).collect::<Vec<_>>().join(" , "))); } else { text.push_str(&format!("e:s {} .\n", items.iter().map(|n| format!("e:p {}", lit(n))).collect::<Vec<_>>().join(" ; "))); } }
+            if oe.is_some() { text.push_str("e:s e:p oops oops .\n"); }
+        }
+        text
+    }
+    fn build(base: Base, steps: &Steps, hint: Hint, pulls: &Rc<Cell<usize>>, layers: &[Layer]) -> Bx {
+        let mut s = match base {
+            Base::Batch => Bx(Box::new(HintedBatch { steps: steps.clone().into(), hint, pulls: pulls.clone() })),
+            Base::Iter => Bx(Box::new(HintedIter { items: steps.iter().map(|(i, e)| match e { Some(e) => Err(MyErr(*e)), None => Ok(i[0]) }).collect(), hint, pulls: pulls.clone() })),
+            Base::Turtle => Bx(Box::new(ParserNums(sophia_turtle::parser::turtle::parse_bufread(std::io::Cursor::new(turtle_doc(steps).into_bytes()))))),
+        };
+        for l in layers { s = apply(s, *l); }
+        s
+    }
+    /// the generated stream: base, steps, hint, layers
+    struct Gen { base: Base, steps: Steps, hint: Hint, layers: Vec<Layer> }
+    fn gen_stream(r: &mut Rng, multi: bool, errors: bool, max_layers: usize, only_ads: bool) -> Gen {
+        let base = if multi { *r.pick(&[Base::Batch, Base::Batch, Base::Batch, Base::Turtle]) } else { *r.pick(&[Base::Iter, Base::Iter, Base::Batch, Base::Batch, Base::Batch, Base::Turtle]) };
+        let err = |r: &mut Rng| 100 + r.below(50) as u64;
+        let steps: Steps = match base {
+            Base::Iter => { let len = r.below(8); let mut src: Vec<Result<u64, u64>> = (0..len).map(|_| Ok(r.below(10) as u64)).collect(); if errors && r.chance(1, 3) { let k = r.below(len + 1); src.insert(k, Err(err(r))); } of_results(&src) }
+            Base::Batch => (0..r.below(5)).map(|_| ((0..if multi { 1 + r.below(4) } else { r.below(4) }).map(|_| r.below(10) as u64).collect(), if errors && r.chance(1, 7) { Some(err(r)) } else { None })).collect(),
+            // one step for the prefix declaration, then one statement per step (never empty); the parser's error ends the document
+            Base::Turtle => { let mut v: Steps = vec![(vec![], None)]; for _ in 0..r.below(4) { v.push(((0..1 + r.below(4)).map(|_| r.below(10) as u64).collect(), None)); } if errors && r.chance(1, 4) { v.push((vec![], Some(7))); } v }
+        };
+        let hint = *r.pick(&[Hint::Exact, Hint::Exact, Hint::Exact, Hint::Unknown, Hint::Zero, Hint::TooSmall, Hint::TooLarge, Hint::LowerOnly, Hint::UpperOnly]);
+        let ads = [AD::FilterEven, AD::FilterLt(7), AD::FilterNone, AD::FilterAll, AD::FilterAll, AD::MapSucc, AD::MapSucc, AD::MapDouble, AD::MapConst(4), AD::FilterMapHalf, AD::FilterMapLtSucc(8)];
+        let maps = [AD::MapSucc, AD::MapSucc, AD::MapDouble, AD::MapConst(4)]; let fms = [AD::FilterMapHalf, AD::FilterMapLtSucc(8), AD::FilterMapLtSucc(30)];
+        let layers: Vec<Layer> = (0..r.below(max_layers + 1)).map(|_| if only_ads || r.chance(2, 5) { Layer::Ad(*r.pick(&ads)) } else if r.chance(1, 2) { Layer::IntoIterMap(*r.pick(&maps)) } else { Layer::IntoIterFm(*r.pick(&fms)) }).collect();
+        Gen { base, steps, hint, layers }
+    }
+    /// the layers as the segments between two into_iter() (each closed by the adapter that was turned into an iterator), and the adapters after the last one
+    fn segments(layers: &[Layer]) -> (Vec<Vec<AD>>, Vec<AD>) {
+        let mut segs = vec![]; let mut cur = vec![];
+        for l in layers { cur.push(l.ad()); if l.is_iter() { segs.push(std::mem::take(&mut cur)); } }
+        (segs, cur)
+    }
+    fn c_segs(segs: &[Vec<AD>]) -> String { coq_list(segs.iter().map(|s| coq_list(s.iter().map(c_ad)))) }
+
+    // ---------- consumers of the Source API ----------
+    #[derive(Clone, Copy, Debug, PartialEq)]
+    pub enum ConsA { TryEach, Stepwise, ForEach, ForSomeLoop, AddToGraph, GraphInsertAll, AddToDataset, DatasetInsertAll, CollectVec, CollectSetGraph, SerNt, SerNq }
+    fn stream_out<E: std::error::Error>(r: Result<(), StreamError<MyErr, E>>, code: impl Fn(&E) -> u64) -> Outc { match r { Ok(()) => Outc::Done, Err(StreamError::SourceError(e)) => Outc::Source(e.0), Err(StreamError::SinkError(e)) => Outc::Sink(code(&e)) } }
+    /// (the items the consumer received, if that can be observed; outcome; the count the consumer returned)
+    fn run_a(s: Bx, cons: ConsA, fault: Option<(usize, u64)>, via_iter: bool) -> (Option<Vec<u64>>, Outc, Option<usize>) {
+        let mut s = s;
+        let mut trace: Vec<u64> = vec![];
+        let pol = Pol { set: false, rm_all: false, fail_ins: fault, fail_rem: None, bad: None };
+        let core = Rc::new(RefCell::new(Core { content: vec![], journal: vec![], changed: 0, pol }));
+        let journal = |core: &Rc<RefCell<Core>>| -> Vec<u64> { core.borrow().journal.iter().map(|c| match c { Call::Ins(x) | Call::Rem(x) => *x }).collect() };
+        match cons {
+            ConsA::TryEach => { let res = s.try_for_each_item(|x| { trace.push(x); match fault { Some((j, e)) if trace.len() == j + 1 => Err(MyErr(e)), _ => Ok(()) } }); (Some(trace), stream_out(res, |e: &MyErr| e.0), None) }
+            ConsA::Stepwise => { let res = loop { match s.try_for_some_item(|x| { trace.push(x); match fault { Some((j, e)) if trace.len() == j + 1 => Err(MyErr(e)), _ => Ok(()) } }) { Ok(true) => continue, Ok(false) => break Ok(()), Err(e) => break Err(e) } }; (Some(trace), stream_out(res, |e: &MyErr| e.0), None) }
+            ConsA::ForEach => { let res = s.for_each_item(|x| trace.push(x)).map_err(StreamError::<MyErr, MyErr>::SourceError); (Some(trace), stream_out(res, |e| e.0), None) }
+            ConsA::ForSomeLoop => { let res = loop { match s.for_some_item(|x| trace.push(x)) { Ok(true) => continue, Ok(false) => break Ok(()), Err(e) => break Err(StreamError::<MyErr, MyErr>::SourceError(e)) } }; (Some(trace), stream_out(res, |e| e.0), None) }
+            ConsA::AddToGraph | ConsA::GraphInsertAll => {
+                let mut g = JG(core.clone());
+                let ts = s.map_items(|x: u64| spo_of(x));
+                let res = match (cons == ConsA::AddToGraph, via_iter) { (true, true) => ts.map_triples(|t: [ST; 3]| t).into_iter().add_to_graph(&mut g), (true, false) => ts.add_to_graph(&mut g), (false, true) => g.insert_all(ts.filter_map_triples(|t: [ST; 3]| Some(t)).into_iter()), (false, false) => g.insert_all(ts) };
+                let n = res.as_ref().ok().copied();
+                (Some(journal(&core)), stream_out(res.map(|_| ()), |e: &MyErr| e.0), n)
+            }
+            ConsA::AddToDataset | ConsA::DatasetInsertAll => {
+                let mut d = JD(core.clone());
+                let qs = s.map_items(|x: u64| (spo_of(x), None::<ST>));
+                let res = match (cons == ConsA::AddToDataset, via_iter) { (true, true) => qs.map_quads(|q: ([ST; 3], Option<ST>)| q).into_iter().add_to_dataset(&mut d), (true, false) => qs.add_to_dataset(&mut d), (false, true) => d.insert_all(qs.filter_map_quads(|q: ([ST; 3], Option<ST>)| Some(q)).into_iter()), (false, false) => d.insert_all(qs) };
+                let n = res.as_ref().ok().copied();
+                (Some(journal(&core)), stream_out(res.map(|_| ()), |e: &MyErr| e.0), n)
+            }
+            ConsA::CollectVec => {
+                let ts = s.map_items(|x: u64| super::tr(x));
+                let res: Result<Vec<[ST; 3]>, _> = if via_iter { ts.map_triples(|t: [ST; 3]| t).into_iter().collect_triples() } else { ts.collect_triples() };
+                match res { Ok(v) => (Some(v.iter().map(super::num).collect()), Outc::Done, Some(v.len())), Err(StreamError::SourceError(e)) => (None, Outc::Source(e.0), None), Err(StreamError::SinkError(_)) => (None, Outc::Sink(0), None) }
+            }
+            ConsA::CollectSetGraph => {
+                let ts = s.map_items(|x: u64| super::tr(x));
+                let res: Result<BTreeSet<[ST; 3]>, _> = if via_iter { ts.map_triples(|t: [ST; 3]| t).into_iter().collect_triples() } else { ts.collect_triples() };
+                match res { Ok(v) => { let mut t: Vec<u64> = v.iter().map(super::num).collect(); t.sort(); (Some(t), Outc::Done, None) } Err(StreamError::SourceError(e)) => (None, Outc::Source(e.0), None), Err(StreamError::SinkError(_)) => (None, Outc::Sink(0), None) }
+            }
+            ConsA::SerNt | ConsA::SerNq => {
+                // the writer accepts the lines of the first j items and 3 more bytes
+                let line_len = |n: u64| format!("<http://e/s> <http://e/p> \"{n}\"^^<{XSD}integer>.\n").len();
+                let budget = match fault { Some((_, b)) => b as usize, None => usize::MAX };
+                let _ = line_len;
+                let mut fw = super::FailingWriter { budget, written: vec![], failed: false, calls_after_failure: 0 };
+                let res = if cons == ConsA::SerNt {
+                    let ts = s.map_items(|x: u64| super::tr(x));
+                    if via_iter { NtSerializer::new(&mut fw).serialize_triples(ts.map_triples(|t: [ST; 3]| t).into_iter()).map(|_| ()) } else { NtSerializer::new(&mut fw).serialize_triples(ts).map(|_| ()) }
+                } else {
+                    let qs = s.map_items(|x: u64| (super::tr(x), None::<ST>));
+                    if via_iter { NqSerializer::new(&mut fw).serialize_quads(qs.map_quads(|q: ([ST; 3], Option<ST>)| q).into_iter()).map(|_| ()) } else { NqSerializer::new(&mut fw).serialize_quads(qs).map(|_| ()) }
+                };
+                let text_out = String::from_utf8(fw.written).unwrap();
+                let lines: Vec<u64> = text_out.split_inclusive('\n').filter(|l| l.ends_with(">.\n")).map(|l| l.split('"').nth(1).unwrap().parse().unwrap()).collect();
+                let out = stream_out(res, |_| 997);
+                (Some(lines), if fw.calls_after_failure > 0 { Outc::Sink(u64::MAX) } else { out }, None)
+            }
+        }
+    }
+
+    pub fn case_a(idx: usize, r: &mut Rng, verbose: bool, sum: &mut Summary, cases: &mut Vec<(usize, String)>, seen: &mut std::collections::HashSet<String>) {
+        sum.evaluations += 1;
+        let g = gen_stream(r, false, true, 4, false);
+        let cons = *r.pick(&[ConsA::TryEach, ConsA::TryEach, ConsA::Stepwise, ConsA::ForEach, ConsA::ForSomeLoop, ConsA::AddToGraph, ConsA::GraphInsertAll, ConsA::AddToDataset, ConsA::DatasetInsertAll, ConsA::CollectVec, ConsA::CollectSetGraph, ConsA::SerNt, ConsA::SerNq]);
+        let via_iter = r.chance(1, 2) && !matches!(cons, ConsA::TryEach | ConsA::Stepwise | ConsA::ForEach | ConsA::ForSomeLoop);
+        let flat: Vec<AD> = g.layers.iter().map(|l| l.ad()).collect();
+        let can_fail = matches!(cons, ConsA::TryEach | ConsA::Stepwise | ConsA::AddToGraph | ConsA::GraphInsertAll | ConsA::AddToDataset | ConsA::DatasetInsertAll | ConsA::SerNt | ConsA::SerNq);
+        let fault: Option<(usize, u64)> = if can_fail && r.chance(2, 5) { Some((r.below(5), 200 + r.below(50) as u64)) } else { None };
+        let ser = matches!(cons, ConsA::SerNt | ConsA::SerNq);
+        // ----- the oracle: filter_map over the prefix before the first fault -----
+        let exp = oracle(&g.steps, &flat, fault);
+        // for the serializers the fault is a writer that accepts the lines of the first j items (and 3 bytes more)
+        let all = oracle(&g.steps, &flat, None).trace;
+        let line_len = |n: u64| format!("<http://e/s> <http://e/p> \"{n}\"^^<{XSD}integer>.\n").len();
+        let real_fault = if ser { fault.map(|(j, _)| (j, (all.iter().take(j).map(|n| line_len(*n)).sum::<usize>() + 3) as u64)) } else { fault };
+        let (exp_trace, exp_out): (Vec<u64>, Outc) = if ser { match (&exp.out, fault) { (Outc::Sink(_), Some((j, _))) => (exp.trace[..j].to_vec(), Outc::Sink(997)), _ => (exp.trace.clone(), exp.out.clone()) } } else { (exp.trace.clone(), exp.out.clone()) };
+        // ----- the real run -----
+        let pulls = Rc::new(Cell::new(0usize));
+        let (trace, out, count) = run_a(build(g.base, &g.steps, g.hint, &pulls, &g.layers), cons, real_fault, via_iter);
+        let text = format!("iterator-as-source: base={:?} size-hint={:?} steps={:?} layers={:?} consumer={cons:?}{} sink_fault={fault:?}", g.base, g.hint, g.steps, g.layers, if via_iter { " [behind one more map_*/filter_map_*(..).into_iter()]" } else { "" });
+        let mut problems: Vec<String> = vec![];
+        if out != exp_out { problems.push(format!("outcome {out:?}, expected {exp_out:?}")); }
+        match &trace {
+            Some(t) => { let mut e = exp_trace.clone(); if cons == ConsA::CollectSetGraph { e.sort(); e.dedup(); } if *t != e && !(matches!(cons, ConsA::CollectVec | ConsA::CollectSetGraph) && exp_out != Outc::Done) { problems.push(format!("the consumer received {t:?}, expected {e:?} (every item that passes, once, in source order, none after the fault)")); } }
+            None => {}
+        }
+        if let (Some(n), Outc::Done) = (count, &exp_out) { if n != exp_trace.len() { problems.push(format!("the consumer returned the count {n}, expected {}", exp_trace.len())); } }
+        if g.base != Base::Turtle && pulls.get() != exp.pulled { problems.push(format!("{} steps pulled from the base source, expected {}", pulls.get(), exp.pulled)); }
+        for p in &problems { sum.oracle_failures.push((idx.to_string(), format!("{text}: {p}"))); }
+        if verbose { println!("CASE {idx}: {text}\nIMPL   trace={trace:?} out={out:?} count={count:?} pulled={}\nORACLE trace={exp_trace:?} out={exp_out:?} pulled={}", pulls.get(), exp.pulled); }
+        let n_iter = g.layers.iter().filter(|l| l.is_iter()).count() + via_iter as usize;
+        sum.bump(&format!("iter:base:{:?}", g.base)); sum.bump(&format!("iter:hint:{:?}", g.hint)); sum.bump(&format!("iter:into_iter-layers:{n_iter}")); sum.bump(&format!("iter:consumer:{cons:?}"));
+        sum.bump(&format!("iter:outcome:{}", match exp_out { Outc::Done => "done", Outc::Source(_) => "source-error", Outc::Sink(_) => "sink-error" }));
+        let nontrivial = n_iter > 0 && exp_trace.len() >= 2;
+        if seen.insert(text.clone()) && nontrivial { sum.distinct_nontrivial += 1; }
+        if nontrivial && exp_out != Outc::Done && sum.samples.iter().filter(|s| s.contains("iterator-as-source")).count() < 2 { sum.samples.push(format!("case {idx}: {text} => {trace:?} {out:?}")); }
+        // ----- the Coq case: the nesting of iterators as the model writes it -----
+        let Some(t) = trace else { return };
+        if ser || cons == ConsA::CollectSetGraph { return; }
+        let (segs, last) = segments(&g.layers);
+        let c_fault = match fault { None => "None".to_string(), Some((j, e)) => format!("(Some ({j}%nat, {e}))") };
+        cases.push((idx, format!("run_nested_ok {} {} {} {c_fault} {} {}", c_steps(&g.steps), c_segs(&segs), coq_list(last.iter().map(c_ad)), coq_list(t.iter().map(|x| x.to_string())), c_outc(&out))));
+    }
+
+    // ---------- the methods of the Iterator trait ----------
+    type R = Result<u64, u64>;
+    #[derive(Clone, Debug, Default, PartialEq)]
+    pub struct PObs { first: Vec<R>, seq: Vec<R>, scalar: Option<i64>, rest: Vec<R>, panicked: Option<String> }
+    #[derive(Clone, Copy, Debug, PartialEq)]
+    pub enum Meth { Next, ForLoop, Fold, ForEach, Count, Last, SumResult, MaxByKey, MinBy, Reduce, CollectVec, CollectSet, CollectResultByRef, ExtendVec, ExtendSet, Partition, Unzip,
+        TryFoldAll, TryFoldBreak(usize), TryForEachBreak(usize), Nth(usize), Find, Any, All, Position, ByRefTake(usize), ByRefForEach, ByRefCount, SizeHint, SizeHintBetween,
+        SkipFold(usize), StepByCollect(usize), ChainFold, PeekableFold, FuseLast, EnumerateCount, TakeForEach(usize), TakeWhileFold, FilterCount, InspectForEach, ZipCollect, FlatMapCollect, EqExpected, MapSum }
+    fn cv(r: Result<u64, MyErr>) -> R { r.map_err(|e| e.0) }
+    /// k manual next() calls, then the method; for the methods that take the iterator by reference, what next() still delivers afterwards
+    fn probe<I: Iterator<Item = Result<u64, MyErr>>>(it: I, k: usize, m: Meth, exp_rest: &[R]) -> PObs {
+        let hook = std::panic::take_hook(); std::panic::set_hook(Box::new(|_| {}));
+        let res = std::panic::catch_unwind(std::panic::AssertUnwindSafe(|| probe0(it, k, m, exp_rest)));
+        std::panic::set_hook(hook);
+        match res { Ok(o) => o, Err(p) => PObs { panicked: Some(p.downcast_ref::<String>().cloned().or_else(|| p.downcast_ref::<&str>().map(|s| s.to_string())).unwrap_or_else(|| "panic".into())), ..PObs::default() } }
+    }
+    fn probe0<I: Iterator<Item = Result<u64, MyErr>>>(mut it: I, k: usize, m: Meth, exp_rest: &[R]) -> PObs {
+        let mut o = PObs::default();
+        for _ in 0..k { match it.next() { Some(x) => o.first.push(cv(x)), None => break } }
+        let push = |mut v: Vec<R>, x: Result<u64, MyErr>| { v.push(cv(x)); v };
+        match m {
+            Meth::Next => {}
+            Meth::ForLoop => { for x in it { o.seq.push(cv(x)); } return o }
+            Meth::Fold => { o.seq = it.fold(vec![], push); return o }
+            Meth::ForEach => { let mut v = vec![]; it.for_each(|x| v.push(cv(x))); o.seq = v; return o }
+            Meth::Count => { o.scalar = Some(it.count() as i64); return o }
+            Meth::Last => { o.seq = it.last().map(cv).into_iter().collect(); return o }
+            Meth::SumResult => { let s: Result<u64, MyErr> = it.sum(); o.seq = vec![cv(s)]; return o }
+            Meth::MapSum => { o.scalar = Some(it.map(|r| match r { Ok(x) => x as i64, Err(e) => 1000 * e.0 as i64 }).sum()); return o }
+            Meth::MaxByKey => { o.seq = it.max_by_key(|r| r.as_ref().ok().copied()).map(cv).into_iter().collect(); return o }
+            Meth::MinBy => { o.seq = it.min_by(|a, b| a.as_ref().ok().cmp(&b.as_ref().ok())).map(cv).into_iter().collect(); return o }
+            Meth::Reduce => { o.seq = it.reduce(|a, b| match (a, b) { (Ok(x), Ok(y)) => Ok(x + y), (Err(e), _) | (_, Err(e)) => Err(e) }).map(cv).into_iter().collect(); return o }
+            Meth::CollectVec => { o.seq = it.collect::<Vec<_>>().into_iter().map(cv).collect(); return o }
+            Meth::CollectSet => { o.seq = it.map(cv).collect::<BTreeSet<R>>().into_iter().collect(); return o }
+            Meth::ExtendVec => { let mut v: Vec<Result<u64, MyErr>> = vec![]; v.extend(it); o.seq = v.into_iter().map(cv).collect(); return o }
+            Meth::ExtendSet => { let mut v: BTreeSet<R> = BTreeSet::new(); v.extend(it.map(cv)); o.seq = v.into_iter().collect(); return o }
+            Meth::Partition => { let (a, b): (Vec<_>, Vec<_>) = it.partition(|r| r.is_ok()); o.seq = a.into_iter().chain(b).map(cv).collect(); return o }
+            Meth::Unzip => { let (a, b): (Vec<bool>, Vec<R>) = it.map(|r| (r.is_ok(), cv(r))).unzip(); o.scalar = Some(a.iter().filter(|x| **x).count() as i64); o.seq = b; return o }
+            Meth::SkipFold(n) => { o.seq = it.skip(n).fold(vec![], push); return o }
+            Meth::StepByCollect(n) => { o.seq = it.step_by(n + 1).map(cv).collect(); return o }
+            Meth::ChainFold => { o.seq = it.chain(std::iter::once(Ok(4242))).fold(vec![], push); return o }
+            Meth::PeekableFold => { let mut p = it.peekable(); let first = p.peek().cloned(); o.scalar = Some(match first { None => -1, Some(Ok(x)) => x as i64, Some(Err(e)) => 1000 * e.0 as i64 }); o.seq = p.fold(vec![], push); return o }
+            Meth::FuseLast => { o.seq = it.fuse().last().map(cv).into_iter().collect(); return o }
+            Meth::EnumerateCount => { o.scalar = Some(it.enumerate().count() as i64); return o }
+            Meth::TakeForEach(n) => { let mut v = vec![]; it.take(n).for_each(|x| v.push(cv(x))); o.seq = v; return o }
+            Meth::TakeWhileFold => { o.seq = it.take_while(|r| !matches!(r, Ok(x) if *x % 5 == 4)).fold(vec![], push); return o }
+            Meth::FilterCount => { o.scalar = Some(it.filter(|r| r.is_ok()).count() as i64); return o }
+            Meth::InspectForEach => { let mut seen = 0i64; let mut v = vec![]; it.inspect(|_| seen += 1).for_each(|x| v.push(cv(x))); o.seq = v; o.scalar = Some(seen); return o }
+            Meth::ZipCollect => { o.seq = it.zip(0u64..).map(|(r, i)| cv(r).map(|x| 100 * i + x)).collect(); return o }
+            Meth::FlatMapCollect => { o.seq = it.flat_map(|r| [r, r]).fold(vec![], push); return o }
+            Meth::EqExpected => { o.scalar = Some(it.map(cv).eq(exp_rest.iter().cloned()) as i64); return o }
+            // ----- the methods that leave the iterator usable -----
+            Meth::TryFoldAll => { o.seq = it.try_fold(vec![], |v, x| Some(push(v, x))).unwrap(); }
+            Meth::TryFoldBreak(p) => { let mut v = vec![]; let _ = it.try_fold((), |(), x| { v.push(cv(x)); if v.len() > p { Err(()) } else { Ok(()) } }); o.seq = v; }
+            Meth::TryForEachBreak(p) => { let mut v = vec![]; let _ = it.try_for_each(|x| { v.push(cv(x)); if v.len() > p { None } else { Some(()) } }); o.seq = v; }
+            Meth::Nth(n) => { o.seq = it.nth(n).map(cv).into_iter().collect(); }
+            Meth::Find => { o.seq = it.find(|r| matches!(r, Ok(x) if *x % 3 == 0)).map(cv).into_iter().collect(); }
+            Meth::Any => { o.scalar = Some(it.any(|r| r.is_err()) as i64); }
+            Meth::All => { o.scalar = Some(it.all(|r| matches!(r, Ok(x) if x < 9)) as i64); }
+            Meth::Position => { o.scalar = Some(it.position(|r| matches!(r, Ok(x) if x % 2 == 1)).map_or(-1, |p| p as i64)); }
+            Meth::ByRefTake(n) => { o.seq = it.by_ref().take(n).map(cv).collect(); }
+            Meth::ByRefForEach => { let mut v = vec![]; it.by_ref().for_each(|x| v.push(cv(x))); o.seq = v; }
+            Meth::ByRefCount => { o.scalar = Some(it.by_ref().count() as i64); }
+            Meth::CollectResultByRef => { let res: Result<Vec<u64>, MyErr> = it.by_ref().collect(); o.seq = match res { Ok(v) => v.into_iter().map(Ok).collect(), Err(e) => vec![Err(e.0)] }; }
+            Meth::SizeHint => { let _ = it.size_hint(); let _ = it.size_hint(); }
+            Meth::SizeHintBetween => { loop { let _ = it.size_hint(); match it.next() { Some(x) => o.seq.push(cv(x)), None => break } if o.seq.len() > 10_000 { break } } }
+        }
+        let mut guard = 0;
+        while let Some(x) = it.next() { o.rest.push(cv(x)); guard += 1; if guard > 10_000 { break } }
+        o
+    }
+    #[derive(Clone, Copy, Debug, PartialEq)]
+    pub enum Fin { MapId, Map(AD), FmSome, Fm(AD), MapTriples, FmTriples, MapQuads, FmQuads }
+    impl Fin { fn ad(self) -> Option<AD> { match self { Fin::Map(a) | Fin::Fm(a) => Some(a), _ => None } } }
+
+    pub fn case_b(idx: usize, r: &mut Rng, verbose: bool, sum: &mut Summary, cases: &mut Vec<(usize, String)>, seen: &mut std::collections::HashSet<String>) {
+        sum.evaluations += 1;
+        // mostly: a multi-item-per-step source under Source adapters only, so that next() leaves items pending in the iterator under test
+        let plain = r.chance(3, 4);
+        let mut g = gen_stream(r, plain, true, if plain { 2 } else { 3 }, plain);
+        // the Turtle parser cannot be pulled on after its error
+        if g.base == Base::Turtle { if let Some((_, Some(_))) = g.steps.last() { g.steps.pop(); } }
+        let fin = match r.below(10) { 0 | 1 => Fin::MapId, 2 | 3 => Fin::Map(*r.pick(&[AD::MapSucc, AD::MapDouble])), 4 => Fin::FmSome, 5 | 6 => Fin::Fm(*r.pick(&[AD::FilterMapHalf, AD::FilterMapLtSucc(8), AD::FilterMapLtSucc(30)])), 7 => *r.pick(&[Fin::MapTriples, Fin::MapQuads]), _ => *r.pick(&[Fin::FmTriples, Fin::FmQuads]) };
+        let k = *r.pick(&[0usize, 1, 1, 1, 2, 2, 3, 4]);
+        let small = |r: &mut Rng| r.below(4);
+        let m = match r.below(44) {
+            0 => Meth::Next, 1 => Meth::ForLoop, 2 | 3 => Meth::Fold, 4 | 5 => Meth::ForEach, 6 | 7 => Meth::Count, 8 | 9 => Meth::Last, 10 => Meth::SumResult, 11 => Meth::MaxByKey, 12 => Meth::MinBy, 13 => Meth::Reduce, 14 => Meth::CollectVec, 15 => Meth::CollectSet,
+            16 => Meth::CollectResultByRef, 17 => Meth::ExtendVec, 18 => Meth::ExtendSet, 19 => Meth::Partition, 20 => Meth::Unzip, 21 => Meth::TryFoldAll, 22 => Meth::TryFoldBreak(small(r)), 23 => Meth::TryForEachBreak(small(r)), 24 => Meth::Nth(small(r)),
+            25 => Meth::Find, 26 => Meth::Any, 27 => Meth::All, 28 => Meth::Position, 29 => Meth::ByRefTake(small(r)), 30 => Meth::ByRefForEach, 31 => Meth::ByRefCount, 32 => Meth::SizeHint, 33 => Meth::SizeHintBetween, 34 => Meth::SkipFold(small(r)),
+            35 => Meth::StepByCollect(small(r)), 36 => Meth::ChainFold, 37 => Meth::PeekableFold, 38 => Meth::FuseLast, 39 => Meth::EnumerateCount, 40 => Meth::TakeForEach(small(r)), 41 => *r.pick(&[Meth::TakeWhileFold, Meth::FilterCount, Meth::InspectForEach]), 42 => *r.pick(&[Meth::ZipCollect, Meth::FlatMapCollect, Meth::MapSum]), _ => Meth::EqExpected,
+        };
+        let mut flat: Vec<AD> = g.layers.iter().map(|l| l.ad()).collect(); if let Some(a) = fin.ad() { flat.push(a); }
+        // ----- the oracle: the sequence the iterator must deliver, and the same calls on a Vec iterator over it -----
+        let full: Vec<R> = oracle_drain(&g.steps, &flat);
+        let exp_rest: Vec<R> = full.iter().skip(k).cloned().collect();
+        let exp = probe(full.clone().into_iter().map(|r| r.map_err(MyErr)), k, m, &exp_rest);
+        // ----- the real run -----
+        let pulls = Rc::new(Cell::new(0usize));
+        let s = build(g.base, &g.steps, g.hint, &pulls, &g.layers);
+        let obs = match fin {
+            Fin::MapId => probe(s.map_items(|x: u64| x).into_iter(), k, m, &exp_rest),
+            Fin::Map(a) => probe(s.map_items(move |x: u64| mapf(a, x)).into_iter(), k, m, &exp_rest),
+            Fin::FmSome => probe(s.filter_map_items(|x: u64| Some(x)).into_iter(), k, m, &exp_rest),
+            Fin::Fm(a) => probe(s.filter_map_items(move |x: u64| fmf(a, x)).into_iter(), k, m, &exp_rest),
+            Fin::MapTriples => probe(s.map_items(|x: u64| super::tr(x)).map_triples(|t: [ST; 3]| super::num(&t)).into_iter(), k, m, &exp_rest),
+            Fin::FmTriples => probe(s.map_items(|x: u64| super::tr(x)).filter_map_triples(|t: [ST; 3]| Some(super::num(&t))).into_iter(), k, m, &exp_rest),
+            Fin::MapQuads => probe(s.map_items(|x: u64| (super::tr(x), None::<ST>)).map_quads(|q: ([ST; 3], Option<ST>)| super::num(&q.0)).into_iter(), k, m, &exp_rest),
+            Fin::FmQuads => probe(s.map_items(|x: u64| (super::tr(x), None::<ST>)).filter_map_quads(|q: ([ST; 3], Option<ST>)| Some(super::num(&q.0))).into_iter(), k, m, &exp_rest),
+        };
+        // were items pending inside the iterator when the method was called?  (only a step of the source right below it can leave some)
+        let inner_iter = g.layers.iter().any(|l| l.is_iter());
+        let pending = !inner_iter && { let mut pos = 0usize; let mut inside = false; for stp in &g.steps { let n = oracle_drain(&vec![stp.clone()], &flat).len(); if pos < k && k < pos + n { inside = true; } pos += n; } inside };
+        let text = format!("iterator-method: base={:?} size-hint={:?} steps={:?} layers={:?} iterator-under-test={fin:?}(..).into_iter() manual-next-calls={k} then={m:?}", g.base, g.hint, g.steps, g.layers);
+        // std's Filter::count checks in debug builds that the upper bound of size_hint() was not too small: a panic there is
+        // about the hint (sloppy by construction in these cases, and not maintained by the iterators of map.rs / filter_map.rs
+        // while items are pending), not about the items delivered
+        let hint_check = m == Meth::FilterCount && obs.panicked.as_deref() == Some("attempt to subtract with overflow");
+        if hint_check { sum.bump("itermeth:std-debug-check-of-size_hint-tripped(filter.count)"); }
+        if obs != exp && !hint_check { sum.oracle_failures.push((idx.to_string(), format!("{text}{}: the iterator gives {obs:?}; the same calls on a Vec iterator over the expected sequence {full:?} give {exp:?}", if pending { " [items of the current step were still pending in the iterator]" } else { "" }))); }
+        if verbose { println!("CASE {idx}: {text}\nIMPL   {obs:?}\nORACLE {exp:?} (full sequence {full:?}, pending={pending})"); }
+        sum.bump(&format!("itermeth:{}", format!("{m:?}").split('(').next().unwrap())); sum.bump(&format!("itermeth:iterator:{}", format!("{fin:?}").split('(').next().unwrap())); sum.bump(&format!("itermeth:hint:{:?}", g.hint));
+        if pending { sum.bump("itermeth:items-pending-at-the-call"); }
+        if seen.insert(text.clone()) && pending && exp_rest.len() >= 2 { sum.distinct_nontrivial += 1; }
+        if pending && sum.samples.iter().filter(|s| s.contains("iterator-method")).count() < 2 { sum.samples.push(format!("case {idx}: {text} => {obs:?}")); }
+        // ----- the Coq case: k times iter_next, then what the method shows of the rest -----
+        let c_res = |v: &[R]| coq_list(v.iter().map(|x| match x { Ok(v) => format!("inl {v}"), Err(e) => format!("inr {e}") }));
+        if hint_check { return; }
+        let (c_m, c_obs): (String, Vec<R>) = match m {
+            Meth::Next | Meth::ForLoop | Meth::Fold | Meth::ForEach | Meth::CollectVec | Meth::ExtendVec | Meth::TryFoldAll | Meth::TryFoldBreak(_) | Meth::TryForEachBreak(_) | Meth::ByRefTake(_) | Meth::ByRefForEach | Meth::SizeHint | Meth::SizeHintBetween
+                => ("IAll".into(), obs.seq.iter().chain(obs.rest.iter()).cloned().collect()),
+            Meth::Count | Meth::ByRefCount | Meth::EnumerateCount => ("ICount".into(), vec![Ok(obs.scalar.unwrap() as u64)]),
+            Meth::Last | Meth::FuseLast => ("ILast".into(), obs.seq.clone()),
+            Meth::Nth(n) => (format!("(INth {n}%nat)"), obs.seq.iter().chain(obs.rest.iter()).cloned().collect()),
+            Meth::SumResult => ("ISum".into(), obs.seq.clone()),
+            _ => return,
+        };
+        let (segs, mut last) = segments(&g.layers);
+        let mut c_last: Vec<String> = last.drain(..).map(|a| c_ad(&a)).collect(); c_last.push(match fin.ad() { Some(a) => c_ad(&a), None => "DFilterAll".into() });
+        cases.push((idx, format!("iter_meth_ok {} {} {} {k}%nat {c_m} {} {}", c_steps(&g.steps), c_segs(&segs), coq_list(c_last), c_res(&obs.first), c_res(&c_obs))));
+        let _ = through;
     }
 }
